@@ -43,14 +43,16 @@ Proof.
 Qed.
 
 Lemma guard_scale k c : 0 < k -> col_dom c -> col_dom (cscale k c) ->
-  (if qltb (qfrac 1 1000) (c_p (cscale k c)) then true else false) = (if qltb (qfrac 1 1000) (c_p c) then true else false).
+  (if qltb 0 (c_p (cscale k c)) then true else false) = (if qltb 0 (c_p c) then true else false).
 Proof.
   intros K [Z|G] [Z'|G']; rewrite c_p_scale in *.
   - rewrite Z. replace (k * 0) with 0 by ring. reflexivity.
   - rewrite Z in G'. replace (k * 0) with 0 in G' by ring. exfalso. qlra.
   - assert (c_p c = 0). { destruct (Qcmult_integral _ _ Z') as [E|E]; [rewrite E in K; exfalso; qlra|exact E]. }
     rewrite H in G. exfalso. qlra.
-  - destruct (qltb_spec (qfrac 1 1000) (k * c_p c)), (qltb_spec (qfrac 1 1000) (c_p c)); try reflexivity; contradiction.
+  - destruct (qltb_spec 0 (k * c_p c)) as [A|A], (qltb_spec 0 (c_p c)) as [B|B]; try reflexivity; exfalso.
+    + apply B. revert G. generalize (c_p c). intros x G. qlra.
+    + apply A. revert G'. generalize (k * c_p c). intros x G'. qlra.
 Qed.
 
 Section Scale.
@@ -72,7 +74,7 @@ Section Scale.
         rewrite qmin_scale by apply k_nonneg. ring.
     - pose proof (guard_scale k c K D D') as G. rewrite c_p_scale, c_src_scale in *. cbn [c_u cscale].
       rewrite qmin_scale by apply k_nonneg.
-      destruct (qltb (qfrac 1 1000) (k * c_p c)), (qltb (qfrac 1 1000) (c_p c)); try discriminate.
+      destruct (qltb 0 (k * c_p c)), (qltb 0 (c_p c)); try discriminate.
       + rewrite div_scale by apply k_nz. ring.
       + ring.
   Qed.
